@@ -47,6 +47,7 @@ fn main() {
         "C05" => props::c05::run(&ctx),
         "C06" => props::c06::run(&ctx),
         "C10" => props::c10::run(&ctx),
+        "C12" => props::c12::run(&ctx),
         "C13" => props::c13::run(&ctx),
         "C19" => props::c19::run(&ctx),
         _ => {
